@@ -429,8 +429,12 @@ func c10GenStep(t *rapid.T, w gen.World) []c10Step {
 		want := netip.AddrFrom4([4]byte{192, 168, 0, byte(60 + cl + 4*rapid.IntRange(0, 2).Draw(t, "slot"))})
 		name := rapid.SampledFrom([]string{"", "laptop", "phone-1"}).Draw(t, "hostname")
 		var cid []byte
-		if rapid.Bool().Draw(t, "cid") {
+		switch rapid.IntRange(0, 3).Draw(t, "cid") {
+		case 0:
 			cid = append([]byte{1}, mac[:]...)
+		case 1: // a client identifier that does not depend on the hardware address: the same identifier may
+			// show up from another station (a dock, a cloned image, a randomised MAC)
+			cid = []byte(rapid.SampledFrom([]string{"duid-A", "duid-B"}).Draw(t, "sharedCid"))
 		}
 		x := byte(rapid.IntRange(0, 3).Draw(t, "xid"))
 		steps := []c10Step{{K: "pkt", Data: dhcpMsg(1, x, want, false, name, cid)}}
